@@ -277,6 +277,8 @@ class StmtMixin(object):
                 old = base.items.get(idx.key(), (idx, UNDEF))[1]
                 val = self.guarded(val, old, getattr(base, "birth", 0))
             base.items[idx.key()] = (idx, val)
+            if getattr(base, "module", None) is not None:
+                self.module_store(base.module, idx, val, node)
             return
         if isinstance(base, ListV):
             c = idx.const() if isinstance(idx, Num) else None
@@ -404,11 +406,19 @@ class StmtMixin(object):
         raise RaiseSignal(exc, st)
 
     def s_With(self, st, env):
+        leaving = []
         for item in st.items:
             v = self.eval(item.context_expr, env)
+            if type(v).__name__ == "PyObjV" and hasattr(v.obj, "enter"):
+                leaving.append(v.obj)
+                v = v.obj.enter(self)         # library context managers whose __enter__ returns something else
             if item.optional_vars is not None:
                 self.assign(item.optional_vars, v, env)
-        self.exec_block(st.body, env)
+        try:
+            self.exec_block(st.body, env)
+        finally:
+            for o in reversed(leaving):
+                o.exit(self)
 
     def s_Try(self, st, env):
         rw = self.try_as_membership_test(st, env)
@@ -692,6 +702,8 @@ class StmtMixin(object):
                 else:
                     part = SeqV("nested", var=var, lo=lo, hi=hi, seq=seqv, parts=new)
                 tail.append(part)
+        if chunk is not None and chunk.get("list_emit") is not None:
+            self.chunk_list_emit(chunk, var, lo, hi, seqv)
         # dict stores
         for did, (d, stores) in ctx.dict_stores.items():
             if d.items or len(stores) != 1 or seqv is None:
